@@ -44,7 +44,7 @@ func cmdFunc(args []string) {
 	V := newVerifier(*repo, *stdlib)
 	V.noMerge = *nomerge
 	t0 := time.Now()
-	loadPat := "./" + *pkg
+	loadPat := "./..."
 	if *pkg == "stdlib" {
 		loadPat = "./typez"
 	}
